@@ -24,7 +24,7 @@ from ..algebra import run_trace_leg
 from . import c04
 
 LEVEL = 'model_checking'
-AUTO_PLACEMENTS = ['auto', 'auto_closure', 'auto_attr', 'auto_attr2', 'auto_method', 'auto_param', 'auto_wraps', 'auto_deco_noop', 'auto_param_default', 'auto_hint', 'auto_hint_partial']
+AUTO_PLACEMENTS = ['auto', 'auto_closure', 'auto_attr', 'auto_attr2', 'auto_method', 'auto_param', 'auto_wraps', 'auto_deco_noop', 'auto_param_default', 'auto_hint', 'auto_hint_partial', 'auto_carrier1', 'auto_carrier2']
 MINE = ('C05', 'C07')        # clause prefixes this check reports; C06_* clauses of the shared events belong to check C06
 
 
@@ -172,7 +172,7 @@ def run_shared(check, tier, seed, scratch, mine):
     check.cov['statement_alphabet'] = len(stmts)
     check.cov['rule'] = ('statement-level: all programs of <= 2 statements over the %d-statement alphabet exported by TLC (%s), each with a seeded choice of '
                          'outer (3), callee shapes (3), same/distinct callees, n, written names; %s; one-call grid: %d seeded (outer in the %d star-bearing '
-                         'signatures, callee in the 220-signature universe, written call, 11 resolution routes), executed on the complete call set; '
+                         'signatures, callee in the 220-signature universe, written call, 13 resolution routes), executed on the complete call set; '
                          'distinct by (program, signatures, choices)' % (
                              len(stmts), 'a seeded 15% in the quick tier' if quick else 'all', '15% of 8000 seeded programs of 3 statements' if quick else '120000 seeded programs each of 3 and 4 statements',
                              ngrid, len(UO)))
